@@ -320,6 +320,52 @@ def seeded_specs():
     return out
 
 
+def neutral_specs():
+    """Behaviour-preserving changes kept under /verif/neutral/<id>/ (patch.diff + meta.json): (id, checks, patch)."""
+    root = os.path.join(VERIF_ROOT, "neutral")
+    out = []
+    for sid in sorted(os.listdir(root)) if os.path.isdir(root) else []:
+        patch = os.path.join(root, sid, "patch.diff")
+        if not os.path.isfile(patch):
+            continue
+        with open(patch) as f:
+            files = [ln.split(" b/", 1)[1].strip() for ln in f if ln.startswith("diff --git")]
+        props = set()
+        for fn in files:
+            if "/spatial/" in fn or "/modules/" in fn:
+                props |= {"C07", "C09", "C15"}
+            elif "/utils/" in fn:
+                props |= {"C18"}
+            elif "/data/" in fn:
+                props |= {"C15", "C18", "C09"}
+            else:
+                props |= {"C15"}
+        out.append((sid, sorted(props), patch))
+    return out
+
+
+def neutral_main(args) -> int:
+    """Specificity self-test: no check may raise an alarm on an independently written behaviour-preserving change."""
+    only = os.environ.get("VERIF_MUTANTS")
+    specs = [s for s in neutral_specs() if not only or any(tok in s[0] for tok in only.split(","))]
+    runs = args.runs or 2400
+    budget = int(args.budget or 300)
+    jobs = [("neutral:" + sid, p, patch, None, None) for sid, props, patch in specs for p in props]
+    results = []
+    t0 = time.time()
+    with ThreadPoolExecutor(max_workers=4) as ex:
+        for r in ex.map(lambda s: run_mutant(s, runs, budget), jobs):
+            r["status"] = {"survived": "quiet", "killed": "ALARM"}.get(r["status"], r["status"])
+            results.append(r)
+            print(f"neutral {r['id']:58s} {r['property']}  {r['status']:14s} {r.get('wall_s', '')}  {'; '.join(r.get('signatures', []))[:160]}")
+    quiet = sum(r["status"] == "quiet" for r in results)
+    report = {"changes": len(specs), "check_runs": results, "quiet": quiet, "total": len(results), "wall_s": round(time.time() - t0, 1), "runs_per_check": runs}
+    with open(os.path.join(VERIF_ROOT, "evidence", "selftest_neutral.json"), "w") as f:
+        json.dump(report, f, indent=1, sort_keys=True)
+    print(f"neutral changes: {quiet}/{len(results)} check runs quiet over {len(specs)} changes")
+    return 0 if quiet == len(results) else 2
+
+
 def main(args) -> int:
     only = os.environ.get("VERIF_MUTANTS")
     specs = [s for s in M + seeded_specs() if not only or any(tok in s[0] for tok in only.split(","))]
